@@ -4,8 +4,10 @@ import (
 	"fmt"
 	"hash/fnv"
 	"io"
+	"path/filepath"
 	"runtime"
 	"sort"
+	"strconv"
 	"strings"
 	"testing"
 	"testing/cryptotest"
@@ -20,6 +22,7 @@ type Finding struct {
 	Rule   string `json:"rule"`
 	Sig    string `json:"sig"` // property/rule/discriminators, independent of seed and sizes
 	Detail string `json:"detail"`
+	Site   string `json:"site,omitempty"` // source position of the rule that fired
 }
 
 // Run is everything observable about one execution.
@@ -50,7 +53,11 @@ type Run struct {
 }
 
 func (r *Run) fail(prop, rule, sig, format string, a ...interface{}) {
-	r.Findings = append(r.Findings, Finding{Prop: prop, Rule: rule, Sig: prop + "/" + rule + "/" + sig, Detail: fmt.Sprintf(format, a...)})
+	site := ""
+	if _, file, line, ok := runtime.Caller(1); ok {
+		site = filepath.Base(file) + ":" + strconv.Itoa(line)
+	}
+	r.Findings = append(r.Findings, Finding{Prop: prop, Rule: rule, Sig: prop + "/" + rule + "/" + sig, Detail: fmt.Sprintf(format, a...), Site: site})
 }
 
 // Execute runs one scenario inside a fresh bubble. tape == nil explores with
